@@ -531,6 +531,7 @@ package asm
 
 
 
+
 //@ # ==== generated by /verif/tools/gen_asm_operand_contracts.py: begin ====
 //@ # ---------------------------------------------------------------- C04 / C05 (operands of translated instructions and terminators) ---
 //@ # An operand written as %name / @name is the object indexed under that identifier; a branch target is the
@@ -1048,7 +1049,7 @@ package asm
 //@   ensures typeis(old.Y(), "*ast.LocalIdent") && cast(old.Y(), "*ast.LocalIdent") != nil && !old(mapdom(fgen.locals, localIdent(deref(cast(old.Y(), "*ast.LocalIdent"))))) ==> result != nil
 //@   ensures typeis(old.Y(), "*ast.GlobalIdent") && cast(old.Y(), "*ast.GlobalIdent") != nil && !old(mapdom(fgen.gen.new.globals, globalIdent(deref(cast(old.Y(), "*ast.GlobalIdent"))))) ==> result != nil
 //@ func (*funcGen).irPhiInst
-//@   props C04 C05
+//@   props C04 C05 C15
 //@   partial
 //@   requires fgen != nil && fgen.gen != nil && fgen.f != nil && fgen.f.GlobalID >= 0 && old != nil && typeis(new, "*ir.InstPhi") && cast(new, "*ir.InstPhi") != nil
 //@   assigns anything
